@@ -263,4 +263,15 @@ impl RegionMetadata {
     pub fn verif_to_bytes(&self) -> Vec<u8> {
         self.to_bytes().to_vec()
     }
+
+    /// Verification hook: 0 = clean, 1 = written but not flushed, 2 = not yet written.
+    pub fn verif_state(&self) -> u8 {
+        if self.state.is_clean() {
+            0
+        } else if self.state.needs_flush() {
+            1
+        } else {
+            2
+        }
+    }
 }
